@@ -572,6 +572,14 @@ SEEDED_MORE = [
     ("C15", "C15Gen", "src/enc/brotli_bit_stream.rs", "let magic_number: [u8; 3] = if params.catable && !params.use_dictionary {", "let magic_number: [u8; 3] = if params.catable {", False),
     ("C15", "C15Gen", "src/enc/brotli_bit_stream.rs", "    for magic in magic_number.iter() {\n        BrotliWriteBits(8u8, u64::from(*magic), storage_ix, storage);", "    for m in magic_number.iter() {\n        BrotliWriteBits(8u8, u64::from(*m), storage_ix, storage);", True),
     ("C15", "C15Gen", "src/enc/brotli_bit_stream.rs", "    BrotliWriteBits(8u8, u64::from(VERSION), storage_ix, storage);\n    for sh in", "    for sh in", False),
+    # C17Gen
+    ("C17", "C17Gen", "src/enc/entropy_encode.rs", "            bits = (bits as i32 >> 4) as u16;", "            bits = (bits as i32 >> 3) as u16;", False),
+    ("C17", "C17Gen", "src/enc/entropy_encode.rs", "    retval >>= (0usize.wrapping_sub(num_bits) & 0x3usize);", "    retval >>= (num_bits & 0x3usize);", False),
+    ("C17", "C17Gen", "src/enc/entropy_encode.rs", "    let mut i: usize;\n    i = 4usize;\n    while i < num_bits {", "    let mut i: usize = 4usize;\n    while i < num_bits {", True),
+    ("C17", "C17Gen", "src/enc/brotli_bit_stream.rs", "if depths[symbols[j]] < depths[symbols[i]] {", "if depths[symbols[j]] <= depths[symbols[i]] {", False),
+    ("C17", "C17Gen", "src/enc/brotli_bit_stream.rs", "                    as i32\n                    != 0i32\n                {\n                    break 'break5;", "                    as i32\n                    > 1i32\n                {\n                    break 'break5;", False),
+    ("C17", "C17Gen", "src/enc/brotli_bit_stream.rs", "            skip_some = 3;\n        }\n    }\n    BrotliWriteBits(2, skip_some, storage_ix, storage);", "            skip_some = 2;\n        }\n    }\n    BrotliWriteBits(2, skip_some, storage_ix, storage);", False),
+    ("C17", "C17Gen", "src/enc/brotli_bit_stream.rs", "    for i in skip_some..codes_to_store {\n        let l = code_length_bitdepth[kStorageOrder[i as usize] as usize] as usize;", "    for idx in skip_some..codes_to_store {\n        let l = code_length_bitdepth[kStorageOrder[idx as usize] as usize] as usize;", True),
 ]
 
 if __name__ == "__main__":
